@@ -2,6 +2,8 @@
 version.  spec/trace/DepTrace.tla judges."""
 from __future__ import annotations
 
+import types
+
 from ..core import Prop
 
 NODEP = {"name": "", "ver": [], "pl": ""}
@@ -24,6 +26,7 @@ def items(cls, key, extra=None):
         "missing-key": {"other": "a.x", **(extra or {})}, "empty-item": {}, "non-dict": "a.x",
         "list-with-missing": [dict(ok1), {"zzz": "y", **(extra or {})}], "list-with-non-dict": [dict(ok1), "b.x"],
         "missing-content": {key: "a.x"},
+        "mapping-item": [dict(ok1), types.MappingProxyType(dict(ok2))],
     }[cls]
 
 
@@ -47,13 +50,21 @@ def place(deps, rnd):
     return {"k": "t", "c": group(list(deps), 0), "d": NODEP}
 
 
-def build(x, H):
+def build(x, H, alias=None):
+    """alias (gamma option): equal abstract dependencies are ONE object placed at several positions
+    (a dependency shared by several components) instead of equal-but-distinct objects."""
     if x["k"] == "d":
         d = x["d"]
-        return H.HTMLDependency(d["name"], ".".join(map(str, d["ver"])), head=d["pl"])
+        key = (d["name"], tuple(d["ver"]), d["pl"])
+        if alias is not None and key in alias:
+            return alias[key]
+        o = H.HTMLDependency(d["name"], ".".join(map(str, d["ver"])), head=d["pl"])
+        if alias is not None:
+            alias[key] = o
+        return o
     if x["k"] == "x":
         return "leaf"
-    return H.tags.div(*[build(c, H) for c in x["c"]])
+    return H.tags.div(*[build(c, H, alias) for c in x["c"]])
 
 
 def proj(deps):
@@ -70,7 +81,7 @@ class C10(Prop):
     design_ref = "DESIGN.md section 3, C10"
     rule = ("dependency sequences: every sequence up to the bound over 3 names x versions {1.9, 1.10, 1.10.0, 2} x 2 "
             "distinguishable payloads (TLC), each placed at random nesting in a tree (same pre-order sequence), and seeded "
-            "random multisets with random release versions; every definition shape (8 source x 8 script x 8 stylesheet x 9 "
+            "random multisets with random release versions; every definition shape (8 source x 10 script x 10 stylesheet x 11 "
             "meta classes).  Non-trivial: the sequence repeats a name, or the definition has an invalid part.")
     assumptions = [
         "versions are release segments only (no pre/post/dev parts); their order is re-derived in the spec from the segments",
@@ -104,7 +115,7 @@ class C10(Prop):
         for ln in lines:
             if ln["deps"]:
                 for rep in range(2):
-                    gens.append({"kind": "resolve", "tree": place(ln["deps"], rnd)})
+                    gens.append({"kind": "resolve", "tree": place(ln["deps"], rnd), "alias": rep == 1})
             else:
                 gens.append({"kind": "def", "def": ln["def"]})
         return gens
@@ -117,16 +128,17 @@ class C10(Prop):
             for _ in range(rnd.randint(0, 12)):
                 ver = [rnd.choice([0, 1, 2, 9, 10, 11]) for _ in range(rnd.randint(1, 4))]
                 deps.append({"name": rnd.choice(names), "ver": ver, "pl": rnd.choice("pqr")})
-            gens.append({"kind": "resolve", "tree": place(deps, rnd)})
+            gens.append({"kind": "resolve", "tree": place(deps, rnd), "alias": rnd.random() < 0.4})
         return gens
 
     def execute(self, g):
         import htmltools as H
         if g["kind"] == "resolve":
-            t = build(g["tree"], H)
+            t = build(g["tree"], H, {} if g.get("alias") else None)
             got = t.get_dependencies()
             return {"k": "resolve", "tree": g["tree"], "got": proj(got),
                     "gotNoDedup": proj(t.get_dependencies(dedup=False)),
+                    "gotTagifiedNoDedup": proj(t.tagify().get_dependencies(dedup=False)),
                     "gotRender": proj(t.render()["dependencies"]),
                     "gotTwice": proj(H.TagList(*got).get_dependencies()), "gen": g}
         d = g["def"]
@@ -145,8 +157,13 @@ class C10(Prop):
             raised = True
         if not raised:
             import copy
-            kw2 = {k: ([copy.deepcopy(v)] if isinstance(v, dict) and k != "source" else copy.deepcopy(v)) for k, v in kw.items()}
-            kw1 = copy.deepcopy(kw)
+            try:
+                kw2 = {k: ([copy.deepcopy(v)] if isinstance(v, dict) and k != "source" else copy.deepcopy(v)) for k, v in kw.items()}
+                kw1 = copy.deepcopy(kw)
+            except TypeError:
+                # an argument that cannot be copied (a read-only mapping view): it should have been rejected above,
+                # which the `raised` field already reports; the single-item clause does not apply
+                return {"k": "def", "def": d, "raised": raised, "sameSingle": True, "gen": g}
             try:
                 a = H.HTMLDependency("nm", "1.0", **kw1)
                 b = H.HTMLDependency("nm", "1.0", **kw2)
